@@ -1,10 +1,21 @@
-from props.common import ASSUME_BOUNDED
+from props.common import ASSUME_BOUNDED, verify_keys
 from pv import bounded as B
 
 NAMES = ['bnd:C04.update.total', 'bnd:C04.code', 'bnd:C04.equals_fresh_parse', 'bnd:C04.parent_links', 'bnd:C04.used_names_fresh']
 
 
+KEYS = ['parso.python.diff._update_positions', 'parso.python.diff._is_indentation_error_leaf',
+        'parso.python.diff._get_previous_leaf_if_indentation', 'parso.python.diff._get_next_leaf_if_indentation',
+        'parso.python.diff._skip_dedent_error_leaves']
+
+
 def run(report):
+    # helpers under contract: moving copied subtrees to their new lines shifts exactly the leaves up to last_leaf and
+    # writes nothing else; the leaf walks return the nearest non-indentation leaf
+    verify_keys(report, KEYS)
+    report.assume("TREE-WF: the ghost theory of contracts/tree_nav.py (one well-formed tree, in-order leaf numbering) plus "
+                  "leaf_at (a leaf is the leaf at its own number); _update_positions is called on consecutive siblings of one "
+                  "parent (precondition, assumed of _NodesTreeNode.add_tree_nodes / _copy_nodes)")
     tier = report.tier
     args = ['--seed', str(report.seed)]
     if tier == 'quick':
@@ -16,4 +27,4 @@ def run(report):
     report.assume(ASSUME_BOUNDED,
                   "the core of C04 (the copy conditions of the diff parser never keep a node a fresh parse would build "
                   "differently) has no inductive invariant within reach; it is decided only by this bounded stand-in with the "
-                  "batch parser as oracle")
+                  "batch parser as oracle; the D obligations cover the position update and leaf walks it relies on")
